@@ -340,7 +340,11 @@ fn mem_table(t: &T, ids: &[i32], vals: &[Option<Val>]) -> Result<Arc<MemTable>, 
 fn make_ctx(cfg: JoinCfg, l: &T, r: &T, xs: &[(i32, Option<Val>)], ys: &[(i32, Option<Val>)]) -> Result<SessionContext, String> {
     let sc = match cfg {
         JoinCfg::Default => SessionConfig::new().with_target_partitions(1),
-        JoinCfg::HashPartitioned => SessionConfig::new().with_target_partitions(2).set_bool("datafusion.optimizer.prefer_hash_join", true),
+        JoinCfg::HashPartitioned => SessionConfig::new()
+            .with_target_partitions(2)
+            .set_bool("datafusion.optimizer.prefer_hash_join", true)
+            .set_usize("datafusion.optimizer.hash_join_single_partition_threshold", 0)
+            .set_usize("datafusion.optimizer.hash_join_single_partition_threshold_rows", 0),
         JoinCfg::SortMerge => SessionConfig::new().with_target_partitions(2).set_bool("datafusion.optimizer.prefer_hash_join", false),
     };
     let ctx = SessionContext::new_with_config(sc);
@@ -515,6 +519,8 @@ fn zero_sign(t: &T, v: &Val) -> Option<bool> {
         ScalarValue::Float32(Some(f)) if *f == 0.0 => Some(f.is_sign_negative()),
         ScalarValue::Float64(Some(f)) if *f == 0.0 => Some(f.is_sign_negative()),
         _ if t.is_exact() => v.exact.filter(|e| e.0 == 0).map(|_| false),
+        // a string that is compared with a float column as a number
+        ScalarValue::Utf8(Some(s)) | ScalarValue::Utf8View(Some(s)) => s.parse::<f64>().ok().filter(|f| *f == 0.0).map(|f| f.is_sign_negative()),
         _ => None,
     }
 }
@@ -544,7 +550,7 @@ fn run_pair(l: &T, r: &T, st: &mut Stats) -> Result<Vec<Viol>, String> {
     let (nx, ny) = (p.xs.len(), p.ys.len());
     let pair = format!("x.v: {}, y.v: {}", l.name(), r.name());
     let pk = format!("{}|{}", l.name(), r.name());
-    let mut push = |viols: &mut Vec<Viol>, route: &str, what: String| {
+    let push = |viols: &mut Vec<Viol>, route: &str, what: String| {
         let key = format!("sql/{route}|{pk}");
         if !viols.iter().any(|v| v.key == key) {
             viols.push(Viol { key, what, known_cause: false });
@@ -635,6 +641,32 @@ fn run_pair(l: &T, r: &T, st: &mut Stats) -> Result<Vec<Viol>, String> {
                 }
             }
         }
+    }
+    // Rows whose value cannot be brought to the comparison type at all (every cell of the row / column fails)
+    // are taken out, so that the set-valued routes below can be judged on the rest of the tables.
+    let (p, g) = if any_err {
+        let live_x: Vec<usize> = (0..nx).filter(|i| (0..ny).any(|j| g[0][*i][j].is_ok())).collect();
+        let live_y: Vec<usize> = (0..ny).filter(|j| (0..nx).any(|i| g[0][i][*j].is_ok())).collect();
+        st.add("rows_removed_before_the_set_routes (value never castable to the comparison type)", (nx - live_x.len() + ny - live_y.len()) as u64);
+        if live_x.is_empty() || live_y.is_empty() {
+            st.add("pairs_without_any_evaluating_cell", 1);
+            return Ok(viols);
+        }
+        let g2: Grid = g.iter().map(|op| live_x.iter().map(|i| live_y.iter().map(|j| op[*i][*j].clone()).collect()).collect()).collect();
+        let q = Pair {
+            l,
+            r,
+            xs: live_x.iter().enumerate().map(|(n, i)| (n as i32, p.xs[*i].1.clone())).collect(),
+            ys: live_y.iter().enumerate().map(|(n, j)| (n as i32, p.ys[*j].1.clone())).collect(),
+        };
+        (q, g2)
+    } else {
+        (p, g)
+    };
+    let (nx, ny) = (p.xs.len(), p.ys.len());
+    let any_err = g.iter().flatten().flatten().any(|c| c.is_err());
+    if any_err {
+        st.add("pairs_with_pair-dependent_failing_cells (set routes may fail)", 1);
     }
     let truth = |k: usize, i: usize, j: usize| -> Option<bool> { g[k][i][j].as_ref().ok().map(|c| *c == Some(true)) };
     let ctx = make_ctx(JoinCfg::Default, l, r, &p.xs, &p.ys)?;
@@ -762,14 +794,16 @@ fn run_pair(l: &T, r: &T, st: &mut Stats) -> Result<Vec<Viol>, String> {
     }
     // ---- IN (typed literals of y)
     {
-        let lits: Vec<&Val> = p.ys.iter().filter_map(|(_, v)| v.as_ref()).collect();
+        let lit_js: Vec<usize> = (0..ny).filter(|j| p.ys[*j].1.is_some()).collect();
+        let lits: Vec<&Val> = lit_js.iter().map(|j| p.ys[*j].1.as_ref().unwrap()).collect();
         let m = lits.len();
         let all = lits.iter().map(|v| v.lit.clone()).collect::<Vec<_>>().join(", ");
-        let singles: Vec<String> = lits.iter().map(|v| format!("x.v IN ({})", v.lit)).collect();
-        let sql = format!("SELECT x.id, x.id, {}, x.v IN ({all}) FROM x", singles.join(", "));
+        let singles: Vec<String> = lits.iter().enumerate().map(|(k, v)| format!("x.v IN ({}) AS s{k}", v.lit)).collect();
+        let sql = format!("SELECT x.id, x.id AS id2, {}, x.v IN ({all}) AS whole FROM x", singles.join(", "));
         // expected under SQL semantics from the projection's `=` column (y without its NULL row)
         // alt: 0 = as is, 1 = float zeros compared by bits, 2 = timestamp literal narrowed by truncation
-        let eq_cell = |i: usize, j: usize, alt: u8| -> Cell {
+        let eq_cell = |i: usize, lit: usize, alt: u8| -> Cell {
+            let j = lit_js[lit];
             let c = g[0][i][j].clone();
             let (Some(xv), Some(yv)) = (&p.xs[i].1, &p.ys[j].1) else { return c };
             match alt {
@@ -797,6 +831,33 @@ fn run_pair(l: &T, r: &T, st: &mut Stats) -> Result<Vec<Viol>, String> {
                 Ok(Some(false))
             }
         };
+        // A set of disagreeing cells is attributed to a recorded cause iff *every* one of them is exactly what
+        // that cause's alternative semantics gives (and the types are those the cause is about).
+        let float_pair = l.is_float() || r.is_float();
+        let ts_pair = matches!((l, r), (T::Ts(_), T::Ts(_)));
+        let pk2 = pk.clone();
+        let attribute = |viols: &mut Vec<Viol>, st: &mut Stats, route: &str, bad: Vec<(String, bool, bool)>| {
+            if bad.is_empty() {
+                return;
+            }
+            if float_pair && bad.iter().all(|b| b.1) {
+                st.add("disagreeing_cells_attributed[float IN list compares by bits]", bad.len() as u64);
+                if !viols.iter().any(|v| v.key == KEY_FLOAT_IN) {
+                    viols.push(Viol { key: KEY_FLOAT_IN.to_string(), what: bad[0].0.clone(), known_cause: true });
+                }
+            } else if ts_pair && bad.iter().all(|b| b.2) {
+                st.add("disagreeing_cells_attributed[timestamp literal narrowing truncates]", bad.len() as u64);
+                if !viols.iter().any(|v| v.key == KEY_TS_NARROW) {
+                    viols.push(Viol { key: KEY_TS_NARROW.to_string(), what: bad[0].0.clone(), known_cause: true });
+                }
+            } else {
+                let first = bad.iter().find(|b| !(float_pair && b.1) && !(ts_pair && b.2)).unwrap_or(&bad[0]);
+                let key = format!("sql/{route}|{pk2}");
+                if !viols.iter().any(|v| v.key == key) {
+                    viols.push(Viol { key, what: first.0.clone(), known_cause: false });
+                }
+            }
+        };
         st.queries += 1;
         match sql_run(&ctx, &sql) {
             Ok(run) => {
@@ -812,36 +873,31 @@ fn run_pair(l: &T, r: &T, st: &mut Stats) -> Result<Vec<Viol>, String> {
                     }
                 }
                 st.add("in_literal_queries_compared", 1);
-                let mismatch = |alt: u8| -> Option<String> {
-                    for i in 0..nx {
-                        for j in 0..=m {
-                            let want = if j < m { eq_cell(i, j, alt) } else { list_cell(i, alt) };
-                            let Ok(want) = want else { continue };
-                            let got = obs[i][j];
-                            if got != Some(want) {
-                                let what = if j < m { format!("x.v IN ({})", lits[j].lit) } else { format!("x.v IN ({all})") };
-                                return Some(format!(
+                // every cell that differs from the standard expectation, and whether the alternative semantics
+                // of a recorded cause gives exactly the engine's value for that cell
+                let mut bad: Vec<(String, bool, bool)> = vec![];
+                for i in 0..nx {
+                    for j in 0..=m {
+                        let want_under = |alt: u8| if j < m { eq_cell(i, j, alt) } else { list_cell(i, alt) };
+                        let Ok(want) = want_under(0) else { continue };
+                        let got = obs[i][j];
+                        if got != Some(want) {
+                            let what = if j < m { format!("x.v IN ({})", lits[j].lit) } else { format!("x.v IN ({all})") };
+                            let explained = |alt: u8| matches!(want_under(alt), Ok(w) if got == Some(w));
+                            bad.push((
+                                format!(
                                     "{pair}: x.v = {}: `{what}` = {} but the pairwise `=` of the projection implies {}",
                                     sv_show(&p.xs[i].1),
                                     got.map(|g| show_cell(&Ok(g))).unwrap_or_else(|| "no row".into()),
                                     show_cell(&Ok(want))
-                                ));
-                            }
+                                ),
+                                explained(1),
+                                explained(2),
+                            ));
                         }
                     }
-                    None
-                };
-                if let Some(w) = mismatch(0) {
-                    if (l.is_float() || r.is_float()) && mismatch(1).is_none() {
-                        st.add("pairs_attributed[float IN list compares by bits]", 1);
-                        viols.push(Viol { key: KEY_FLOAT_IN.to_string(), what: w, known_cause: true });
-                    } else if matches!((l, r), (T::Ts(_), T::Ts(_))) && mismatch(2).is_none() {
-                        st.add("pairs_attributed[timestamp literal narrowing truncates]", 1);
-                        viols.push(Viol { key: KEY_TS_NARROW.to_string(), what: w, known_cause: true });
-                    } else {
-                        push(&mut viols, "in-list", w);
-                    }
                 }
+                attribute(&mut viols, st, "in-list", bad);
             }
             Err((stage, e)) => {
                 if any_err {
@@ -858,33 +914,25 @@ fn run_pair(l: &T, r: &T, st: &mut Stats) -> Result<Vec<Viol>, String> {
             Ok(run) => {
                 let rows = id_rows(&run, 1)?;
                 let got: BTreeSet<usize> = rows.iter().map(|v| v[0]).collect();
-                let mismatch = |alt: u8| -> Option<String> {
-                    for i in 0..nx {
-                        let Ok(want) = list_cell(i, alt) else { continue };
-                        if got.contains(&i) != (want == Some(true)) {
-                            return Some(format!(
+                let mut bad: Vec<(String, bool, bool)> = vec![];
+                for i in 0..nx {
+                    let Ok(want) = list_cell(i, 0) else { continue };
+                    let isin = got.contains(&i);
+                    if isin != (want == Some(true)) {
+                        let explained = |alt: u8| matches!(list_cell(i, alt), Ok(w) if isin == (w == Some(true)));
+                        bad.push((
+                            format!(
                                 "{pair}: x.v = {}: the pairwise `=` of the projection implies `x.v IN (..)` = {} but the row is {} the result of `{sqlw}`",
                                 sv_show(&p.xs[i].1),
                                 show_cell(&Ok(want)),
                                 if want == Some(true) { "missing from" } else { "in" }
-                            ));
-                        }
-                    }
-                    None
-                };
-                if let Some(w) = mismatch(0) {
-                    if (l.is_float() || r.is_float()) && mismatch(1).is_none() {
-                        if !viols.iter().any(|v| v.key == KEY_FLOAT_IN) {
-                            viols.push(Viol { key: KEY_FLOAT_IN.to_string(), what: w, known_cause: true });
-                        }
-                    } else if matches!((l, r), (T::Ts(_), T::Ts(_))) && mismatch(2).is_none() {
-                        if !viols.iter().any(|v| v.key == KEY_TS_NARROW) {
-                            viols.push(Viol { key: KEY_TS_NARROW.to_string(), what: w, known_cause: true });
-                        }
-                    } else {
-                        push(&mut viols, "in-list-where", w);
+                            ),
+                            explained(1),
+                            explained(2),
+                        ));
                     }
                 }
+                attribute(&mut viols, st, "in-list-where", bad);
             }
             Err((stage, e)) => {
                 if any_err {
@@ -981,7 +1029,7 @@ fn explore(ctx: &Ctx) {
                 vec![Viol { key: format!("sql/shape|{}|{}", l.name(), r.name()), what: e, known_cause: false }]
             }
         };
-        if l != r && ctx.want_sample() && l.is_exact() && !r.is_exact() && viols.is_empty() {
+        if l != r && ctx.want_sample() && l.is_exact() && !r.is_exact() && viols.is_empty() && st.queries > 10 {
             ctx.sample(json!({"x.v": l.name(), "y.v": r.name(), "queries": st.queries, "counters": st.c, "example": proj_sql(false)}));
         }
         for v in viols {
@@ -995,7 +1043,7 @@ fn explore(ctx: &Ctx) {
         }
     });
     let mut found = found.into_inner().unwrap();
-    found.sort_by(|a, b| (a.size, &a.key).cmp(&(b.size, &b.key)));
+    found.sort_by(|a, b| (a.size, &a.key, a.case.to_string()).cmp(&(b.size, &b.key, b.case.to_string())));
     ctx.count("failing_(route, pair)_total", found.len() as u64);
     // simplest first; ctx.violation keeps the first case per key (fixed keys keep their smallest pair)
     for f in found {
